@@ -7,6 +7,7 @@ import (
 	"bytes"
 	"crypto/md5"
 	"encoding/binary"
+	"encoding/hex"
 	"fmt"
 	"hash/crc32"
 	"os"
@@ -149,6 +150,18 @@ func (f FileSpec) Content(S int) []byte {
 			d := 1 + int(f.Seed%2)
 			ForgeCRC(b[(nfull-1)*S:nfull*S], crc32.ChecksumIEEE(b[d:d+S]))
 		}
+	case "md5a", "md5b":
+		// two different 128-byte blocks with the same MD5 (the published collision of Wang et al.), followed by a tail that
+		// depends only on the seed: files of kinds md5a and md5b with equal size and seed have the same MD5 and the same
+		// first-16-KiB hash, but differ in six bits (their CRC-32 differs)
+		for i := range b {
+			b[i] = byte(xs(&s) >> 7)
+		}
+		blk := MD5CollisionA
+		if f.Kind == "md5b" {
+			blk = MD5CollisionB
+		}
+		copy(b, blk)
 	case "zeros":
 		// all bytes zero: every full slice is the same slice
 	case "share16k":
@@ -225,6 +238,14 @@ func (d Damage) Apply(names []string, state map[string][]byte) {
 			delete(state, name)
 		}
 		return
+	case "catonto":
+		// "cat F G > F; rm G": the other file's content is appended to this file and the other file is lost
+		o := names[d.Other%len(names)]
+		if b, bok := state[o]; ok && bok && o != name {
+			state[name] = append(append([]byte{}, cur...), b...)
+			delete(state, o)
+		}
+		return
 	case "copy":
 		o := names[d.Other%len(names)]
 		if ok {
@@ -275,6 +296,17 @@ func (d Damage) Apply(names []string, state map[string][]byte) {
 		at := clamp(d.Other, len(cur))
 		ins := rnd(n)
 		cur = append(cur[:at:at], append(ins, cur[at:]...)...)
+	case "md5twin":
+		// a file that starts with one of the two colliding blocks gets the other one (six bit flips; same length, same MD5)
+		if len(cur) >= 128 {
+			if bytes.Equal(cur[:128], MD5CollisionA) {
+				copy(cur, MD5CollisionB)
+			} else if bytes.Equal(cur[:128], MD5CollisionB) {
+				copy(cur, MD5CollisionA)
+			} else {
+				cur[0] ^= 1
+			}
+		}
 	case "crcforge":
 		// replace the window [Off, Off+Len) by different bytes with the same CRC-32 (Len >= 8)
 		off := d.Off
@@ -373,6 +405,8 @@ func BystanderFiles() map[string][]byte {
 		"other.vol00+01.par2":  []byte("not a par2 file at all, but the name matches another set's volume"),
 		"notes/readme.md":      []byte("# notes\n"),
 		"set.par2.bak":         []byte("backup-looking file"),
+		"_aux.c":               []byte("unrelated file whose name is a protected name with an underscore in front"),
+		"_nul":                 []byte("another one"),
 		"zz_set.vol00+01.par2": []byte("PAR2\x00PKTgarbage"),
 	}
 }
@@ -626,7 +660,7 @@ func (o *Obs) AllOriginal(snap fsx.Snap) (bool, string) {
 
 // ---------------------------------------------------------------- generators
 
-var nameCorpus = []string{"a.dat", "b file.bin", "docs\\notes.txt", "sub/c.txt", "sub/deep dir/d", "e-1_2.tar.gz", "dir two/f.F", "g", "h~#(1).x", "sub/i.par2.txt", "J.DAT", "k.k.k", "sub2/l"}
+var nameCorpus = []string{"a.dat", "b file.bin", "docs\\notes.txt", "sub/c.txt", "sub/deep dir/d", "e-1_2.tar.gz", "dir two/f.F", "g", "h~#(1).x", "sub/i.par2.txt", "J.DAT", "k.k.k", "sub2/l", "aux.c", "nul", "sub/Com7.log", "LPT1", "con.txt"}
 
 var siblingSuffixes = []string{".tmp", "~", ".bak", ".new", ".part", ".1", ".swp", ".orig"}
 
@@ -771,7 +805,7 @@ func GenFiles(t *rapid.T, S, maxFiles, maxBytes, maxSlices int) []FileSpec {
 	return out
 }
 
-var damageOps = []string{"delete", "overwrite", "flip", "insert", "remove", "truncate", "append", "appendzeros", "trimzeros", "swap", "copy", "move", "crcforge"}
+var damageOps = []string{"delete", "overwrite", "flip", "insert", "remove", "truncate", "append", "appendzeros", "trimzeros", "swap", "copy", "move", "crcforge", "catonto"}
 
 // GenDamage draws a damage step for nfiles files; maxLen bounds file length, S the slice size.
 func GenDamage(t *rapid.T, nfiles, maxLen, S int, ops []string) Damage {
@@ -780,7 +814,7 @@ func GenDamage(t *rapid.T, nfiles, maxLen, S int, ops []string) Damage {
 	}
 	d := Damage{Op: rapid.SampledFrom(ops).Draw(t, "op"), File: rapid.IntRange(0, nfiles-1).Draw(t, "file")}
 	switch d.Op {
-	case "swap", "copy", "move":
+	case "swap", "copy", "move", "catonto":
 		d.Other = rapid.IntRange(0, nfiles-1).Draw(t, "other")
 	case "crcforge":
 		d.Off = S * rapid.IntRange(0, maxLen/S).Draw(t, "sliceidx")
@@ -927,3 +961,23 @@ func IDTwinFiles(size int, seed uint64, pairs int) []FileSpec {
 	}
 	return out
 }
+
+func mustHex(h string) []byte {
+	b, err := hex.DecodeString(h)
+	if err != nil {
+		panic(err)
+	}
+	return b
+}
+
+// MD5CollisionA and MD5CollisionB are the two 128-byte messages with equal MD5 published by Wang, Feng, Lai and Yu (2004).
+var (
+	MD5CollisionA = mustHex("d131dd02c5e6eec4693d9a0698aff95c2fcab58712467eab4004583eb8fb7f89" +
+		"55ad340609f4b30283e488832571415a085125e8f7cdc99fd91dbdf280373c5b" +
+		"d8823e3156348f5bae6dacd436c919c6dd53e2b487da03fd02396306d248cda0" +
+		"e99f33420f577ee8ce54b67080a80d1ec69821bcb6a8839396f9652b6ff72a70")
+	MD5CollisionB = mustHex("d131dd02c5e6eec4693d9a0698aff95c2fcab50712467eab4004583eb8fb7f89" +
+		"55ad340609f4b30283e4888325f1415a085125e8f7cdc99fd91dbd7280373c5b" +
+		"d8823e3156348f5bae6dacd436c919c6dd53e23487da03fd02396306d248cda0" +
+		"e99f33420f577ee8ce54b67080280d1ec69821bcb6a8839396f965ab6ff72a70")
+)
